@@ -87,7 +87,7 @@ struct World {
 }
 impl World {
     fn new(text: &str) -> Self {
-        let mut store = AnnotationStore::default();
+        let mut store = new_store();
         store.add_resource(TextResourceBuilder::new().with_id("r").with_text(text)).unwrap();
         World { store, chars: text.chars().collect(), counter: 0 }
     }
